@@ -110,13 +110,15 @@ REG = {
                 rule="input classes: valid random (6 dialects), dependency cycles + self-dependencies, bounds/pins/deadlines/gaps past the project "
                      "end or before its start, resources that never work, boundary efforts (0, 1min, 150000h, 3y ...), unknown resources/tasks, empty "
                      "bodies, zero/odd project durations and timing resolutions, 1-40 leaves on one resource, many leave lines, scenarios x group "
-                     "limits, repository fixtures, and token-level corruptions (delete/duplicate/swap/truncate/boundary literal) of all of these; "
+                     "limits, repository fixtures, gaplength/maxgapduration dependencies, macro definitions (nested, with arguments, undefined, self- and "
+                     "mutually recursive), leaves/vacations reaching outside the window, contradictory or out-of-horizon pins, and token-level "
+                     "corruptions (delete/duplicate/swap/truncate/boundary literal) of these; "
                      "distinct = (class, outcome, exception type+site | unscheduled?, warned?, #leaves, #scenarios)",
                 quick=dict(cases=2400, budget_s=200, min_nontrivial=60, case_timeout=60),
                 thorough=dict(cases=60000, budget_s=1200, min_nontrivial=150, case_timeout=90),
                 deciding_monitors=["monitor:pick", "steps", "outcome:returned", "outcome:rejected"],
-                params=dict(step_cap=120000000, step_base=2000000, step_ratio=60.0), timeouts_ok=False,
-                assumptions=["termination is restated as bounded progress in logical steps (sys.monitoring PY_START events): hard cap 1.2e8 per case while "
+                params=dict(step_cap=40000000, step_base=2000000, step_ratio=60.0), timeouts_ok=False,
+                assumptions=["termination is restated as bounded progress in logical steps (sys.monitoring PY_START events): hard cap 4e7 per case while "
                              "running, and for returned projects steps <= 2e6 + 3000 x input bytes + 60 x slots x (resources + leaves + 1) x scenarios "
                              "(several times the largest ratio observed on the repaired tree, reported in the evidence); cursor moves per task <= "
                              "#slots + 2, picks <= #leaves; the wall-clock alarm per case is a watchdog whose firing is inconclusive",
